@@ -205,7 +205,17 @@ def x_hist(ctx, case):
                 cur = dict(kw)
                 for code in op[1]:
                     qq = queue.Queue()
-                    testtools.StreamToQueue(qq, code).status(**cur)
+                    try:
+                        if n_events % 2:
+                            # (StreamToQueue spells its parameters out: every other event goes in by position, in
+                            # the order StreamResult.status documents)
+                            from .c10 import ORDER
+                            testtools.StreamToQueue(qq, code).status(*[cur.get(k, dflt) for k, dflt in ORDER])
+                        else:
+                            testtools.StreamToQueue(qq, code).status(**cur)
+                    except Exception as e:  # noqa - a well-formed event: that is the violation
+                        ctx.check(False, "queue.prefixes-route-code", {"StreamToQueue.status raised": repr(e), "event": cur})
+                        return True
                     cur = qq.get()
                     ev_name = cur.pop("event")
                     assert ev_name == "status"
